@@ -211,7 +211,9 @@ func (x *Exec) mapGetVal(st *State, ms mapShape, ref, k Term) Value {
 	}
 	switch ms.vKind {
 	case KSlice:
-		return VSlice{Backing{Heap: true, Ref: comp("#b", SInt)}, comp("#o", SInt), comp("#l", SInt), comp("#c", SInt)}
+		b := comp("#b", SInt)
+		x.notFutureRef(b)
+		return VSlice{Backing{Heap: true, Ref: b}, comp("#o", SInt), comp("#l", SInt), comp("#c", SInt)}
 	case KIface:
 		return VIface{comp("#t", SInt), comp("#v", SInt)}
 	case KStruct:
